@@ -6,6 +6,8 @@ R2 open flags: lookups open with O_PATH|O_NOFOLLOW|O_CLOEXEC; O_NOFOLLOW is clea
 R3 root clamp: ".." at the export root is rewritten to "." under exactly `parent == ROOT_ID && name starts with ".."`
 R4 path-taking system calls are directory-relative (to an inode/handle descriptor or /proc/self/fd); absolute paths
    only at the three by-design sites
+R1 (cont.) polarity of the name predicates (is_safe_path_component, is_dot_or_dotdot, validate_path_component, the passthrough wrapper)
+R3-forget-shape (shared with C08.R3) no forget evicts the root the clamp compares with
 """
 from pyfbr import core, vf
 from rules import common
@@ -406,3 +408,4 @@ META = {
             "path-taking system calls are descriptor-relative except the two by-design absolute opens.",
     "note": "Not decided: races with concurrent renames/symlink swaps in the host kernel; the special-file gate is C05.R3.",
 }
+META["text"] += " " + 'Also: polarity of the name predicates; the root is exempt from forget in forget_one itself.'
